@@ -1,5 +1,5 @@
 (* C05 - concurrent transactions commit exactly their own writes; no lost increments. Statements only. *)
-From Cashews Require Import Base.Prelude Model.TxnConc Proofs.TxnConcProofs.
+From Cashews Require Import Base.Prelude Model.TxnConc Proofs.TxnConcProofs Proofs.TxnConcCommit.
 Open Scope Z_scope.
 
 (* Everything below is for every number of tasks, every program and every schedule: an event is one task doing its next
@@ -49,6 +49,16 @@ Theorem C05_commit_at_most_once : forall progs st tmo att evs tk,
 Proof. exact tx_commit_at_most_once. Qed.
 Print Assumptions C05_commit_at_most_once.
 
+(* ... and at least once: a block that has not failed and has reached its release phase - from which it can only hand its body's
+   results to the caller - has issued the delete_many of its whole delete set and the set_many of its whole overlay (when non-empty) *)
+Theorem C05_commit_complete : forall progs st tmo att evs i x,
+  let c := run_from (init progs st tmo att) evs in
+  cur (tasks c i) = Some x -> tphase x = PUnlock -> tfail x = None ->
+  (snd (fin x) <> [] -> In (i, ttoken x, WDelMany, texec x) (wlog c)) /\
+  (fst (fin x) <> [] -> In (i, ttoken x, WSetMany, texec x) (wlog c)).
+Proof. exact tx_commit_complete. Qed.
+Print Assumptions C05_commit_complete.
+
 (* locks: two tasks holding the same lock key, each within the timeout it took it with, are the same task *)
 Theorem C05_lock_mutex : forall progs st tmo att evs i j x y lk d d',
   let c := run_from (init progs st tmo att) evs in
@@ -97,6 +107,13 @@ Proof.
   { intro d. split; [reflexivity|]. constructor; [intros _ _; right; reflexivity|]. constructor; [intros _ _; left; eexists; reflexivity|constructor]. }
   repeat (constructor; try apply W).
 Qed.
+Example C05_example_commit_complete :
+  let c := run_from (init [[ex_blk Locked 1]; [ex_blk Locked 2]] (fun _ => None) 11 6) (firstn 9 ex_evs) in
+  match cur (tasks c 0%nat) with
+  | Some x => tphase x = PUnlock /\ tfail x = None /\ fin x = ([(0%nat, 1)], []) /\ wlog c = [(0%nat, ttoken x, WSetMany, texec x)]
+  | None => False
+  end.
+Proof. vm_compute. repeat split; reflexivity. Qed.
 Example C05_example_safe : safe (init [[ex_blk Locked 1]; [ex_blk Locked 2]] (fun _ => None) 11 6) ex_evs /\ wf_progs Locked 0 [[ex_blk Locked 1]; [ex_blk Locked 2]].
 Proof.
   split.
